@@ -502,3 +502,107 @@ Lemma empty_alias_is_an_alias :
   /\ impl_from_dict (mkC [mkF "x" (Some "") None false] [] true true None) [(KeyS "", 1%Z)]
      = Ok (OInst [("x", Some (KeyS "", 1%Z))]).
 Proof. repeat split; vm_compute; reflexivity. Qed.
+
+(* ------------------------------------------------------------------ *)
+(* Part 6: class hierarchies -- the nearest declaration / the nearest Config is the one that counts *)
+
+Definition dname (p: fld * bool) : string := f_name (fst p).
+
+Lemma lookup_upsert_same : forall p fs, lookup_decl (dname p) (upsert p fs) = Some p.
+Proof.
+  intros p fs. unfold lookup_decl, dname. induction fs as [|q r IH]; cbn [upsert find].
+  - now rewrite String.eqb_refl.
+  - destruct (String.eqb (f_name (fst q)) (f_name (fst p))) eqn:E; cbn [find].
+    + now rewrite String.eqb_refl.
+    + rewrite E. exact IH.
+Qed.
+
+Lemma lookup_upsert_other : forall n p fs, String.eqb (dname p) n = false ->
+  lookup_decl n (upsert p fs) = lookup_decl n fs.
+Proof.
+  intros n p fs H. unfold lookup_decl, dname in *. induction fs as [|q r IH]; cbn [upsert find].
+  - now rewrite H.
+  - destruct (String.eqb (f_name (fst q)) (f_name (fst p))) eqn:E; cbn [find].
+    + apply String.eqb_eq in E. rewrite E, H. reflexivity.
+    + destruct (String.eqb (f_name (fst q)) n); [reflexivity | exact IH].
+Qed.
+
+Lemma find_app {A} (p: A -> bool) l1 l2 :
+  find p (l1 ++ l2) = match find p l1 with Some x => Some x | None => find p l2 end.
+Proof. induction l1 as [|x r IH]; cbn [app find]; [reflexivity|]. destruct (p x); [reflexivity | exact IH]. Qed.
+
+Lemma lookup_fold_upsert : forall n ds acc,
+  lookup_decl n (fold_left (fun a p => upsert p a) ds acc)
+  = match lookup_decl n (rev ds) with Some p => Some p | None => lookup_decl n acc end.
+Proof.
+  intros n ds. induction ds as [|p r IH]; intro acc; cbn [fold_left rev].
+  - reflexivity.
+  - rewrite IH. unfold lookup_decl at 2 3. rewrite find_app. fold (lookup_decl n (rev r)).
+    destruct (lookup_decl n (rev r)); [reflexivity|]. cbn [find].
+    destruct (String.eqb (f_name (fst p)) n) eqn:E.
+    + apply String.eqb_eq in E. subst n. apply lookup_upsert_same.
+    + now apply lookup_upsert_other.
+Qed.
+
+Lemma collect_app : forall ls l,
+  collect (ls ++ [l]) = fold_left (fun a p => upsert p a) (l_decls l) (collect ls).
+Proof. intros. unfold collect. now rewrite fold_left_app. Qed.
+
+(* the declaration a class sees for a name: the one of its own body if there is one (the last one
+   written), otherwise whatever its parent sees *)
+Theorem nearest_declaration : forall n ls l,
+  lookup_decl n (collect (ls ++ [l]))
+  = match lookup_decl n (rev (l_decls l)) with Some p => Some p | None => lookup_decl n (collect ls) end.
+Proof. intros. rewrite collect_app. apply lookup_fold_upsert. Qed.
+
+Theorem nearest_config : forall ls l,
+  nearest_cfg (ls ++ [l]) = match l_cfg l with Some g => g | None => nearest_cfg ls end.
+Proof. intros. unfold nearest_cfg. now rewrite fold_left_app. Qed.
+
+(* a re-declaration keeps the position of the first declaration; every name occurs once *)
+Lemma upsert_names : forall p fs,
+  map dname (upsert p fs)
+  = if existsb (fun q => String.eqb (dname q) (dname p)) fs then map dname fs else map dname fs ++ [dname p].
+Proof.
+  intros p fs. induction fs as [|q r IH]; cbn [upsert map existsb app]; [reflexivity|].
+  change (String.eqb (f_name (fst q)) (f_name (fst p))) with (String.eqb (dname q) (dname p)).
+  destruct (String.eqb (dname q) (dname p)) eqn:E; cbn [map orb].
+  - apply String.eqb_eq in E. now rewrite E.
+  - rewrite IH. destruct (existsb _ r); reflexivity.
+Qed.
+
+Lemma nodup_snoc {A} (l: list A) x : NoDup l -> ~ In x l -> NoDup (l ++ [x]).
+Proof.
+  induction l as [|y r IH]; cbn [app]; intros Hn Hx.
+  - constructor; [intros [] | constructor].
+  - inversion Hn as [|? ? Hy Hr]; subst. constructor.
+    + intro Hin. apply in_app_or in Hin as [Hin|[Hin|[]]]; [contradiction|]. subst. apply Hx. now left.
+    + apply IH; [assumption|]. intro Hin. apply Hx. now right.
+Qed.
+
+Lemma upsert_nodup : forall p fs, NoDup (map dname fs) -> NoDup (map dname (upsert p fs)).
+Proof.
+  intros p fs H. rewrite upsert_names.
+  destruct (existsb (fun q => String.eqb (dname q) (dname p)) fs) eqn:E; [assumption|].
+  apply nodup_snoc; [assumption|].
+  intro Hin. apply in_map_iff in Hin as [q [Hq Hin]].
+  assert (existsb (fun q => String.eqb (dname q) (dname p)) fs = true).
+  { apply existsb_exists. exists q. split; [assumption|]. rewrite Hq. apply String.eqb_refl. }
+  congruence.
+Qed.
+
+Theorem collect_nodup : forall ls, NoDup (map dname (collect ls)).
+Proof.
+  intro ls. unfold collect.
+  assert (H: forall ls acc, NoDup (map dname acc) ->
+             NoDup (map dname (fold_left (fun acc l => fold_left (fun a p => upsert p a) (l_decls l) acc) ls acc))).
+  { clear ls. induction ls as [|l r IH]; intros acc Ha; cbn [fold_left]; [assumption|].
+    apply IH. generalize dependent acc. induction (l_decls l) as [|p ds IHd]; intros acc Ha; cbn [fold_left];
+      [assumption|]. apply IHd. now apply upsert_nodup. }
+  apply H. constructor.
+Qed.
+
+(* the main theorem for a class given by its hierarchy *)
+Theorem impl_eq_keymodel_hier : forall ls discr d,
+  impl_from_dict (class_of ls discr) d = Ok (keymodel (class_of ls discr) d).
+Proof. intros. apply impl_eq_keymodel. Qed.
